@@ -245,7 +245,8 @@ pub fn large_cases(ctx: &Ctx) -> Vec<RtCase> {
     for n in (1500usize..=4100).step_by(100) {
         v.push(RtCase { l: logical::large(n, ctx.seed + n as u64, 1), asyncw: n % 200 == 0, open_async: false });
     }
-    for n in [4063usize, 4064, 4065, 4080, 4095, 4096] {
+    // (4097, 8197, 12 300: one, five and twelve entries beyond a multiple of the default leaf size of 4096)
+    for n in [4063usize, 4064, 4065, 4080, 4095, 4096, 4097, 8197, 12_300] {
         v.push(RtCase { l: logical::dense(n, ctx.seed + n as u64, 1), asyncw: n % 2 == 0, open_async: false });
     }
     v
